@@ -1,11 +1,13 @@
 """C02 - executor protocol property, decided on E-SIM executions of the real code by the TLA+ monitor Mon_Exec[C02]."""
 import os, sys
 sys.path.insert(0, os.path.dirname(os.path.dirname(os.path.abspath(__file__))))
-from vlib import runner
-from checks import exec_common, exec_findings
+from vlib import runner, tlc
+from checks import exec_common, exec_findings, c02_real
 
 
 def run(ctx):
+    tlc.stage(ctx.work)
+    c02_real.run(ctx)
     exec_common.run_property(ctx, "C02", ['crash', 'crash_shutdown', 'init', 'respawn_crash'], 300, 3000, classify=exec_findings.classify)
 
 
